@@ -942,4 +942,104 @@ theorem sleep_run (rv : Val) (e : String) (env : Env) (cs : Calls) (F : Nat) (hF
   cli_eval []
   cases Env.read? env "o.duration" <;> simp [unboundVar]
 
+/-- `setUnitId`: `client.SetUnitId(o.unitId)`, no request -/
+theorem setUnitId_run (rv : Val) (e : String) (env : Env) (cs : Calls) (F : Nat) (hF : 1 ≤ F) :
+    execFrom (cliOracle rv e) F (arm 18) env cs =
+      ⟨env, .fell, cs ++ [("client.SetUnitId", [Env.read env "o.unitId"])]⟩ := by
+  refine lift _ ?_ fell_ne_oof hF
+  cli_eval []
+  cases Env.read? env "o.unitId" <;> simp
+
+/-- `repeat`: `opIdx = -1` (the increment at the end of the round makes it 0: the list starts over) -/
+theorem repeat_run (rv : Val) (e : String) (env : Env) (cs : Calls) (F : Nat) (hF : 1 ≤ F) :
+    execFrom (cliOracle rv e) F (arm 19) env cs = ⟨Env.write env "opIdx" (.int (-1)), .fell, cs⟩ := by
+  refine lift _ ?_ fell_ne_oof hF
+  cli_eval []
+
+/-- `date`: one line, no client call -/
+theorem date_run (rv : Val) (e : String) (env : Env) (cs : Calls) (F : Nat) (hF : 1 ≤ F) :
+    execFrom (cliOracle rv e) F (arm 20) env cs =
+      ⟨env, .fell, cs ++ [pf env (arm 20) [Env.read env "time.Now().Format(time.RFC3339)"]]⟩ := by
+  refine lift _ ?_ fell_ne_oof hF
+  cli_eval []
+
+/-- `scan:<coils|di>`: `performBoolScan(client, o.isCoil)` -/
+theorem scanBools_run (rv : Val) (e : String) (env : Env) (cs : Calls) (F : Nat) (hF : 1 ≤ F)
+    (hc : Env.read? env "client" = some (.sym "client")) :
+    execFrom (cliOracle rv e) F (arm 21) env cs =
+      ⟨env, .fell, cs ++ [("performBoolScan", [.sym "client", Env.read env "o.isCoil"])]⟩ := by
+  refine lift _ ?_ fell_ne_oof hF
+  cli_eval [hc]
+  cases Env.read? env "o.isCoil" <;> simp
+
+/-- `scan:<hr|ir>`: `performRegisterScan(client, o.isHoldingReg)` -/
+theorem scanRegisters_run (rv : Val) (e : String) (env : Env) (cs : Calls) (F : Nat) (hF : 1 ≤ F)
+    (hc : Env.read? env "client" = some (.sym "client")) :
+    execFrom (cliOracle rv e) F (arm 22) env cs =
+      ⟨env, .fell, cs ++ [("performRegisterScan", [.sym "client", Env.read env "o.isHoldingReg"])]⟩ := by
+  refine lift _ ?_ fell_ne_oof hF
+  cli_eval [hc]
+  cases Env.read? env "o.isHoldingReg" <;> simp
+
+/-- `scan:sid`: `performUnitIdScan(client)` -/
+theorem scanUnitId_run (rv : Val) (e : String) (env : Env) (cs : Calls) (F : Nat) (hF : 1 ≤ F)
+    (hc : Env.read? env "client" = some (.sym "client")) :
+    execFrom (cliOracle rv e) F (arm 23) env cs =
+      ⟨env, .fell, cs ++ [("performUnitIdScan", [.sym "client"])]⟩ := by
+  refine lift _ ?_ fell_ne_oof hF
+  cli_eval [hc]
+
+/-- `ping`: `performPing(client, o.quantity, o.duration)` -/
+theorem ping_run (rv : Val) (e : String) (env : Env) (cs : Calls) (F : Nat) (hF : 1 ≤ F)
+    (hc : Env.read? env "client" = some (.sym "client")) :
+    execFrom (cliOracle rv e) F (arm 24) env cs =
+      ⟨env, .fell, cs ++ [("performPing", [.sym "client", Env.read env "o.quantity", Env.read env "o.duration"])]⟩ := by
+  refine lift _ ?_ fell_ne_oof hF
+  cli_eval [hc]
+  cases Env.read? env "o.quantity" <;> cases Env.read? env "o.duration" <;> simp
+
+/-- `default`: `"unknown operation %v\n"` is printed and the process exits with status 100 -/
+theorem default_run (rv : Val) (e : String) (env : Env) (cs : Calls) (ov : Val) (F : Nat) (hF : 3 ≤ F)
+    (ho : Env.read? env "o" = some ov) :
+    execFrom (cliOracle rv e) F armDefault env cs =
+      ⟨env, .stoppedAt "os.Exit" [.int 100], cs ++ [pf env (sA armDefault) [ov]]⟩ := by
+  have h3 : execFrom (cliOracle rv e) 3 armDefault env cs =
+      ⟨env, .stoppedAt "os.Exit" [.int 100], cs ++ [pf env (sA armDefault) [ov]]⟩ := by
+    cli_eval [ho]
+  exact lift _ h3 (fun h => nomatch h) hF
+
+/-! ### 6. static facts -/
+
+/-- the callees of an arm, in program order (all paths) -/
+def callees (s : GStmt) : List String := (bindCalls s).map (·.2.1)
+
+theorem callees_arms :
+    callees (arm 0) = ["var []bool", "client.ReadCoils", "client.ReadDiscreteInputs", "fmt.Printf", "fmt.Printf"] ∧
+    callees (arm 1) = ["var []uint16", "client.ReadRegisters", "client.ReadRegisters", "fmt.Printf", "fmt.Printf", "fmt.Printf"] ∧
+    callees (arm 2) = ["var []uint32", "client.ReadUint32s", "client.ReadUint32s", "fmt.Printf", "fmt.Printf", "fmt.Printf"] ∧
+    callees (arm 3) = ["var []float32", "client.ReadFloat32s", "client.ReadFloat32s", "fmt.Printf", "fmt.Printf"] ∧
+    callees (arm 4) = ["var []uint64", "client.ReadUint64s", "client.ReadUint64s", "fmt.Printf", "fmt.Printf", "fmt.Printf"] ∧
+    callees (arm 5) = ["var []float64", "client.ReadFloat64s", "client.ReadFloat64s", "fmt.Printf", "fmt.Printf"] ∧
+    callees (arm 6) = ["var []byte", "client.ReadBytes", "client.ReadBytes", "fmt.Printf", "fmt.Printf", "fmt.Printf", "fmt.Printf", "fmt.Printf"] ∧
+    callees (arm 7) = ["client.WriteCoil", "fmt.Printf", "fmt.Printf"] ∧
+    callees (arm 8) = ["client.WriteRegister", "fmt.Printf", "fmt.Printf"] ∧
+    callees (arm 9) = ["client.WriteRegister", "fmt.Printf", "fmt.Printf"] ∧
+    callees (arm 10) = ["client.WriteUint32", "fmt.Printf", "fmt.Printf"] ∧
+    callees (arm 11) = ["client.WriteUint32", "fmt.Printf", "fmt.Printf"] ∧
+    callees (arm 12) = ["client.WriteFloat32", "fmt.Printf", "fmt.Printf"] ∧
+    callees (arm 13) = ["client.WriteUint64", "fmt.Printf", "fmt.Printf"] ∧
+    callees (arm 14) = ["client.WriteUint64", "fmt.Printf", "fmt.Printf"] ∧
+    callees (arm 15) = ["client.WriteFloat64", "fmt.Printf", "fmt.Printf"] ∧
+    callees (arm 16) = ["client.WriteBytes", "fmt.Printf", "fmt.Printf"] ∧
+    callees (arm 17) = ["time.Sleep"] ∧ callees (arm 18) = ["client.SetUnitId"] ∧ callees (arm 19) = [] ∧
+    callees (arm 20) = ["fmt.Printf"] ∧ callees (arm 21) = ["performBoolScan"] ∧
+    callees (arm 22) = ["performRegisterScan"] ∧ callees (arm 23) = ["performUnitIdScan"] ∧
+    callees (arm 24) = ["performPing"] ∧ callees armDefault = ["fmt.Printf", "os.Exit"] := by
+  refine ⟨?_, ?_, ?_, ?_, ?_, ?_, ?_, ?_, ?_, ?_, ?_, ?_, ?_, ?_, ?_, ?_, ?_, ?_, ?_, ?_, ?_, ?_, ?_, ?_, ?_, ?_⟩ <;>
+    decide +kernel
+
+/-- no statement of the run loop is untranslated, and the only assignment to `opIdx` inside a round
+    apart from the increment is `repeat`'s -/
+theorem run_no_opaque : opaques cliRunPart = [] := by decide +kernel
+
 end Modbus.GoEval.CliRun
